@@ -489,6 +489,9 @@ def invariant(ctx, u, case):
             return
         addr, sep, zone = raw.partition("%")
         zone = zone if sep else None
+        if hostm.ipv6_canonical(addr) is None:
+            ctx.count("optree_bracketed_non_ipv6_skipped")  # '[zz:zz]'-like text the lenient parser lets in: nothing is promised about it
+            return
         if zone is not None and not zone.isascii():
             ctx.count("optree_nonascii_zone_skipped")  # finding D12's territory (C01)
             return
